@@ -624,8 +624,11 @@ func toDeleteNotification(n *pb.Notification, timestamp int64) *pb.Notification 
 	case len(prefix.GetElem()) > 0 || len(path.GetElem()) > 0:
 		// Copy: appending to the stored prefix's slice would write into a backing
 		// array that other notifications sharing the prefix also append to.
-		elems := make([]*pb.PathElem, 0, len(prefix.GetElem())+len(path.GetElem()))
-		elems = append(append(elems, prefix.GetElem()...), path.GetElem()...)
+		// A side that uses the deprecated element encoding is converted, so that
+		// the delete names the whole indexed path of the leaf.
+		pe, le := pathElems(prefix), pathElems(path)
+		elems := make([]*pb.PathElem, 0, len(pe)+len(le))
+		elems = append(append(elems, pe...), le...)
 		d.Delete = []*pb.Path{{Elem: elems}}
 	default:
 		elements := make([]string, 0, len(prefix.GetElement())+len(path.GetElement()))
@@ -633,6 +636,19 @@ func toDeleteNotification(n *pb.Notification, timestamp int64) *pb.Notification 
 		d.Delete = []*pb.Path{{Element: elements}}
 	}
 	return d
+}
+
+// pathElems returns the elements of p, converting the deprecated element
+// encoding when p does not use elem.
+func pathElems(p *pb.Path) []*pb.PathElem {
+	if len(p.GetElem()) > 0 {
+		return p.GetElem()
+	}
+	es := make([]*pb.PathElem, 0, len(p.GetElement()))
+	for _, e := range p.GetElement() {
+		es = append(es, &pb.PathElem{Name: e})
+	}
+	return es
 }
 
 func (t *Target) gnmiRemove(n *pb.Notification) []*ctree.Leaf {
